@@ -176,9 +176,10 @@ func Run(t *testing.T, seed uint64, prof *Profile, replay []core.Cmd, keepLog bo
 var skylightBinary = os.Getenv("VERIF_SKYLIGHT_BINARY")
 
 type server struct {
-	cmd  *exec.Cmd
-	addr string
-	out  *bytes.Buffer
+	cmd    *exec.Cmd
+	addr   string
+	out    *bytes.Buffer
+	exited chan struct{}
 }
 
 func freePort() string {
@@ -194,38 +195,61 @@ func startSkylight(tmp, yaml string) (*server, error) {
 	if skylightBinary == "" {
 		return nil, errors.New("VERIF_SKYLIGHT_BINARY not set")
 	}
-	addr := freePort()
-	yaml = fmt.Sprintf("listen:\n  - %q\n", addr) + yaml
-	cfg := filepath.Join(tmp, "skylight.yaml")
-	os.WriteFile(cfg, []byte(yaml), 0o644)
-	s := &server{addr: addr, out: &bytes.Buffer{}}
-	s.cmd = exec.Command(skylightBinary, "-c", cfg)
-	s.cmd.Dir = tmp
-	s.cmd.Stdout = io.Discard
-	s.cmd.Stderr = s.out
-	if err := s.cmd.Start(); err != nil {
-		return nil, err
-	}
-	deadline := time.Now().Add(60 * time.Second)
-	for time.Now().Before(deadline) {
-		c, err := net.DialTimeout("tcp", addr, time.Second)
-		if err == nil {
-			c.Close()
-			return s, nil
+	var last string
+	// another worker may grab the port between freePort and the child's
+	// listen: the child then exits, which is detected, and a new port is tried
+	for attempt := 0; attempt < 8; attempt++ {
+		addr := freePort()
+		cfg := filepath.Join(tmp, "skylight.yaml")
+		os.WriteFile(cfg, []byte(fmt.Sprintf("listen:\n  - %q\n", addr)+yaml), 0o644)
+		s := &server{addr: addr, out: &bytes.Buffer{}, exited: make(chan struct{})}
+		s.cmd = exec.Command(skylightBinary, "-c", cfg)
+		s.cmd.Dir = tmp
+		s.cmd.Stdout = io.Discard
+		s.cmd.Stderr = s.out
+		if err := s.cmd.Start(); err != nil {
+			return nil, err
 		}
-		if s.cmd.ProcessState != nil {
-			break
+		go func() { s.cmd.Wait(); close(s.exited) }()
+		deadline := time.Now().Add(90 * time.Second)
+		up := false
+		for time.Now().Before(deadline) && !up {
+			select {
+			case <-s.exited:
+				deadline = time.Now()
+				continue
+			default:
+			}
+			c, err := net.DialTimeout("tcp", addr, time.Second)
+			if err == nil {
+				c.Close()
+				up = true
+				break
+			}
+			time.Sleep(50 * time.Millisecond)
 		}
-		time.Sleep(50 * time.Millisecond)
+		if up {
+			// make sure it is our child that listens there
+			select {
+			case <-s.exited:
+			case <-time.After(300 * time.Millisecond):
+				select {
+				case <-s.exited:
+				default:
+					return s, nil
+				}
+			}
+		}
+		s.stop()
+		last = clipS(s.out.String())
 	}
-	s.stop()
-	return nil, fmt.Errorf("skylight did not come up: %s", clipS(s.out.String()))
+	return nil, fmt.Errorf("skylight did not come up: %s", last)
 }
 
 func (s *server) stop() {
 	if s.cmd.Process != nil {
 		s.cmd.Process.Kill()
-		s.cmd.Wait()
+		<-s.exited
 	}
 }
 
@@ -782,13 +806,28 @@ func (w *rsWorld) runWitnessHealth(r *core.Rand) {
 			os.WriteFile(filepath.Join(wdir, oh, "checkpoint"), olderPending, 0o644)
 			wantM = false
 		case "edge-missing", "edge-corrupt":
-			edge := ref.RequiredTiles(n1, false)
+			// the tiles that hold the right-edge hashes: one per complete subtree in
+			// the decomposition of n (what a verifying reader needs for the root)
 			var hashTiles []ref.TileCoord
-			for _, t := range edge {
-				// right-edge hash tiles only
-				if t.Level >= 0 && (t.W != 256 || (t.N+1)*256 == n1>>uint(8*t.Level)) {
-					hashTiles = append(hashTiles, t)
+			have := map[ref.TileCoord]bool{}
+			for k, rem, start := 62, n1, int64(0); k >= 0; k-- {
+				if rem>>uint(k)&1 == 0 {
+					continue
 				}
+				i := start >> uint(k) // index of the subtree root at level k
+				L := k / 8
+				j := uint(k % 8)
+				N := (i << j) >> 8
+				wd := (n1 >> uint(8*L)) - N*256
+				if wd > 256 {
+					wd = 256
+				}
+				tc := ref.TileCoord{Level: L, N: N, W: int(wd)}
+				if !have[tc] {
+					have[tc] = true
+					hashTiles = append(hashTiles, tc)
+				}
+				start += int64(1) << uint(k)
 			}
 			if len(hashTiles) == 0 {
 				continue
